@@ -317,6 +317,9 @@ func (r *PosReader) Read(p []byte) (int, error) {
 	r.Pos += n
 	if r.Mode == "error-with-data" && r.FailAt >= 0 && r.Pos >= r.FailAt {
 		r.Hit = true
+		if r.StickyErr != nil {
+			return n, r.StickyErr
+		}
 		return n, ErrInjected
 	}
 	return n, nil
